@@ -35,10 +35,14 @@ def net(sym):
     for s, n in networks():
         if s == sym:
             return n
+    for s, n, _ in extra_networks():
+        if s == sym:
+            return n
     raise KeyError(sym)
 
 
 _STUB = {}
+_EXTRA = None
 
 
 def is_stub(n):
@@ -51,14 +55,16 @@ def is_stub(n):
     return _STUB[k]
 
 
-def _payload_of(text):
+def _payload_of(text, chk="sha256d"):
     """payload of a Base58Check text under double-SHA256 (None: absent / other checksum function)"""
-    return b58check_dec(text) if isinstance(text, str) else None
+    if not isinstance(text, str):
+        return None
+    return b58check_dec(text) if chk == "sha256d" else b58check_dec_chk(chk, text)
 
 
-def _prefix_from(text, tail):
+def _prefix_from(text, tail, chk="sha256d"):
     """version bytes of a serialisation whose payload must end with the known bytes `tail`"""
-    p = _payload_of(text)
+    p = _payload_of(text, chk)
     if p is None or len(p) <= len(tail) or p[len(p) - len(tail):] != tail:
         return []
     return list(p[:len(p) - len(tail)])
@@ -103,51 +109,55 @@ def _private_crosscheck(n, row):
 TABLE_NOTES = {}
 
 
+def _row(sym, n, chk=None):
+    """one row of the prefix table, from the PUBLIC behaviour of network n (chk: the name of the checksum function of
+    its Base58Check texts when it is not double-SHA256 and can be computed here)"""
+    h = bytes(range(0x40, 0x54))
+    gpt = G
+    stub = is_stub(n)
+    dchk = chk or "sha256d"
+    row = {"sym": sym}
+    if stub:
+        row["p2pkh"] = _hook_payload(n.address, n.address.for_p2pkh, h)
+        row["p2sh"] = _hook_payload(n.address, n.address.for_p2sh, h)
+    else:
+        row["p2pkh"] = _prefix_from(call(n.address.for_p2pkh, h)[1], h, dchk)
+        row["p2sh"] = _prefix_from(call(n.address.for_p2sh, h)[1], h, dchk)
+    one = (1).to_bytes(32, "big")
+    row["wif"] = _prefix_from(call(lambda: n.keys.private(1).wif())[1], one + b"\x01", dchk)
+    tag, node = call(n.keys.bip32_seed, b"vf-table")
+    body_prv = body_pub = None
+    row["b32prv"] = row["b32pub"] = []
+    if tag == "ok" and node is not None:
+        body_prv, body_pub = node.serialize(as_private=True), node.serialize(as_private=False)
+        row["b32prv"] = _prefix_from(call(lambda: node.hwif(as_private=True))[1], body_prv, dchk)
+        row["b32pub"] = _prefix_from(call(lambda: node.hwif(as_private=False))[1], body_pub, dchk)
+    for fam, key in (("bip49", "b49"), ("bip84", "b84")):
+        row[key + "prv"] = row[key + "pub"] = []
+        if body_prv is None:
+            continue
+        tag, nd = call(getattr(n.keys, fam + "_deserialize"), b"\0\0\0\0" + body_prv)
+        if tag == "ok" and nd is not None:
+            row[key + "prv"] = _prefix_from(call(lambda: nd.hwif(as_private=True))[1], body_prv)
+            row[key + "pub"] = _prefix_from(call(lambda: nd.hwif(as_private=False))[1], body_pub)
+    tag, t = call(n.address.for_p2pkh_wit, h)
+    sd = segwit_dec(t) if tag == "ok" and isinstance(t, str) else None
+    row["hrp"] = [ord(c) for c in sd[0]] if sd and sd[2] == h else []
+    sec = sec_of(gpt, True)
+    tag, t = call(lambda: n.keys.public(gpt).as_text())
+    row["sec"] = [ord(c) for c in t[:-len(sec.hex())]] if tag == "ok" and isinstance(t, str) and t.endswith(sec.hex()) else []
+    row["stub"] = bool(stub)
+    row["chk"] = "groestl" if stub else dchk
+    d = _private_crosscheck(n, row)
+    if d:
+        TABLE_NOTES[sym] = d
+    return row
+
+
 def table():
     """the prefix table, derived from PUBLIC behaviour of every network: the version bytes are read off the texts
     the network itself serialises for a known hash / key / node (Base58Check-decoded by the independent decoder)"""
-    out = []
-    h = bytes(range(0x40, 0x54))
-    gpt = G
-    for sym, n in networks():
-        stub = is_stub(n)
-        row = {"sym": sym}
-        if stub:
-            row["p2pkh"] = _hook_payload(n.address, n.address.for_p2pkh, h)
-            row["p2sh"] = _hook_payload(n.address, n.address.for_p2sh, h)
-        else:
-            row["p2pkh"] = _prefix_from(call(n.address.for_p2pkh, h)[1], h)
-            row["p2sh"] = _prefix_from(call(n.address.for_p2sh, h)[1], h)
-        one = (1).to_bytes(32, "big")
-        row["wif"] = _prefix_from(call(lambda: n.keys.private(1).wif())[1], one + b"\x01")
-        tag, node = call(n.keys.bip32_seed, b"vf-table")
-        body_prv = body_pub = None
-        row["b32prv"] = row["b32pub"] = []
-        if tag == "ok" and node is not None:
-            body_prv, body_pub = node.serialize(as_private=True), node.serialize(as_private=False)
-            row["b32prv"] = _prefix_from(call(lambda: node.hwif(as_private=True))[1], body_prv)
-            row["b32pub"] = _prefix_from(call(lambda: node.hwif(as_private=False))[1], body_pub)
-        for fam, key in (("bip49", "b49"), ("bip84", "b84")):
-            row[key + "prv"] = row[key + "pub"] = []
-            if body_prv is None:
-                continue
-            tag, nd = call(getattr(n.keys, fam + "_deserialize"), b"\0\0\0\0" + body_prv)
-            if tag == "ok" and nd is not None:
-                row[key + "prv"] = _prefix_from(call(lambda: nd.hwif(as_private=True))[1], body_prv)
-                row[key + "pub"] = _prefix_from(call(lambda: nd.hwif(as_private=False))[1], body_pub)
-        tag, t = call(n.address.for_p2pkh_wit, h)
-        sd = segwit_dec(t) if tag == "ok" and isinstance(t, str) else None
-        row["hrp"] = [ord(c) for c in sd[0]] if sd and sd[2] == h else []
-        sec = sec_of(gpt, True)
-        tag, t = call(lambda: n.keys.public(gpt).as_text())
-        row["sec"] = [ord(c) for c in t[:-len(sec.hex())]] if tag == "ok" and isinstance(t, str) and t.endswith(sec.hex()) else []
-        row["stub"] = bool(stub)
-        row["chk"] = "groestl" if stub else "sha256d"
-        d = _private_crosscheck(n, row)
-        if d:
-            TABLE_NOTES[sym] = d
-        out.append(row)
-    return out
+    return [_row(sym, n) for sym, n in networks()]
 
 
 def write_json(obj, prefix):
@@ -819,3 +829,154 @@ ENTRY_ATTR = {"parse": None}
 
 def entry(n, name):
     return n.parse if name == "parse" else getattr(n.parse, name)
+
+
+# ---------------------------------------------------------------- Base58Check under other checksum functions
+def _blake4(b):
+    return hashlib.blake2b(bytes(b), digest_size=4).digest()
+
+
+# name of a checksum function (the `chk` of a network row / of a b58c term) -> the 4 check bytes of a payload
+CHECKSUMS = {"sha256d": lambda b: sha256d(b)[:4], "blake2b4": _blake4}
+
+
+def b58check_chk(chk, payload):
+    """the Base58Check text of payload under the named checksum function (KeyError: not computable here)"""
+    payload = bytes(payload)
+    return b58enc(payload + CHECKSUMS[chk](payload))
+
+
+def b58check_dec_chk(chk, s):
+    """payload of a Base58 text validly checksummed under the named function, else None"""
+    if not s or any(ch not in B58 for ch in s):
+        return None
+    raw = b58dec(s)
+    if raw is None or len(raw) < 4 or CHECKSUMS[chk](raw[:-4]) != raw[-4:]:
+        return None
+    return raw[:-4]
+
+
+def ev_text(t):
+    """evaluate a text term; a b58c term under the checksum function it names"""
+    if t["op"] == "b58c":
+        return b58check_chk(t.get("chk", "sha256d"), ev(t["a"]))
+    return ev(t)
+
+
+def segwit_syms(s):
+    """(hrp, ver, data symbols after the version, var) of a valid Bech32 / Bech32m text with at least a version
+    symbol - WITHOUT the 5-to-8 regrouping (so that texts failing BIP173's padding rule have a structure too)"""
+    d = bech32_dec(s)
+    if d is None or not d[1]:
+        return None
+    return d[0], d[1][0], list(d[1][1:]), d[2]
+
+
+# ---------------------------------------------------------------- networks beyond the registry
+def extra_networks():
+    """[(symbol, network, chk)]: networks built through pycoin's public construction API the way pycoin/symbols/grs.py
+    builds the Groestlcoin family (create_bitcoinish_network + a ParseAPI subclass overriding parse_b58_hashed + the
+    documented AddressAPI.b2a hook), with a checksum function that CAN be computed in this sandbox.  They stand in for the
+    registered networks with their own Base58 checksum, whose text layer is disabled here (L3).  Version bytes are
+    those of BTC on purpose: only the checksum function keeps the two networks' texts apart."""
+    global _EXTRA
+    if _EXTRA is None:
+        from pycoin.encoding.b58 import b2a_base58
+        from pycoin.networks.ParseAPI import ParseAPI
+        from pycoin.networks.bitcoinish import create_bitcoinish_network
+        from pycoin.networks.parseable_str import parse_b58, parseable_str
+
+        def dec(s):
+            data = parse_b58(s)
+            if data and len(data) >= 4 and _blake4(data[:-4]) == data[-4:]:
+                return data[:-4]
+            return None
+
+        class _Blake4ParseAPI(ParseAPI):
+            def parse_b58_hashed(self, s):
+                return parseable_str(s).cache("b58_blake2b4", dec)
+
+        def b2a(data):
+            return b2a_base58(data + _blake4(data))
+
+        n = create_bitcoinish_network(
+            symbol="VFK", network_name="Checksum stand-in", subnet_name="mainnet",
+            wif_prefix_hex="80", address_prefix_hex="00", pay_to_script_prefix_hex="05",
+            bip32_prv_prefix_hex="0488ade4", bip32_pub_prefix_hex="0488B21E",
+            bip49_prv_prefix_hex="049d7878", bip49_pub_prefix_hex="049D7CB2",
+            bip84_prv_prefix_hex="04b2430c", bip84_pub_prefix_hex="04B24746",
+            bech32_hrp="vfk", parse_api_class=_Blake4ParseAPI)
+        n.address.b2a = b2a
+        n.bip32_as_string = lambda blob, as_private: b2a(bytes.fromhex("0488ade4" if as_private else "0488b21e") + blob)
+        n.wif_for_blob = lambda blob: b2a(b"\x80" + blob)
+        _EXTRA = [("VFK", n, "blake2b4")]
+        _EXTRA_CONF["VFK"] = {"p2pkh": [0x00], "p2sh": [0x05], "hrp": [ord(c) for c in "vfk"]}
+    return _EXTRA
+
+
+def networks_ext():
+    """the registered networks followed by the extra ones"""
+    return networks() + [(s, n) for s, n, _ in extra_networks()]
+
+
+_EXTRA_CONF = {}
+
+
+def table_ext():
+    """rows of the extra networks: the address parameters are the CONFIGURATION handed to pycoin's constructor above
+    (so an encoder that does not honour it is seen), the other columns are derived as in table()"""
+    out = []
+    for s, n, chk in extra_networks():
+        row = _row(s, n, chk)
+        row.update(_EXTRA_CONF[s])
+        out.append(row)
+    return out
+
+
+# ---------------------------------------------------------------- C18: every text accessor of a parsed object
+def stated_texts(obj, prv, names):
+    """[(accessor, keyword accepted?, 'ok' | 'exc', text)] for those of the named accessors the object really has
+    (discovered, not assumed).  An accessor is first asked with as_private=prv; one that does not know the keyword
+    is asked without arguments."""
+    out = []
+    for nm in sorted(names):
+        f = getattr(obj, nm, None)
+        if not callable(f):
+            continue
+        kw = True
+        try:
+            import inspect
+            kw = "as_private" in inspect.signature(f).parameters
+        except (TypeError, ValueError):
+            kw = False
+        tag, v = call(lambda: f(as_private=prv)) if kw else call(f)
+        out.append((nm, kw, tag, v))
+    return out
+
+
+_TOKEN = _re.compile(r"[0-9A-Za-z:]+")
+
+
+def printed_texts(obj, names, forms):
+    """[(printer, token)]: the words of repr(obj) / str(obj) that are, by the independent decoders, a text of one of the
+    given forms (a validly checksummed Base58 / Bech32 word, a SEC text)"""
+    out = []
+    for nm in sorted(names):
+        f = {"repr": repr, "str": str}.get(nm)
+        if f is None:
+            continue
+        tag, s = call(f, obj)
+        if tag != "ok" or not isinstance(s, str):
+            out.append((nm, None))
+            continue
+        for tok in _TOKEN.findall(s):
+            if len(tok) >= 8 and structure_of(tok)["f"] in forms:
+                out.append((nm, tok))
+    return out
+
+
+def ev_public_half(t):
+    """the text of the public counterpart of a private extended key (term "extpub" of ParseDispatch.tla):
+    Base58Check(public version ++ header and chain code ++ compressed SEC of k*G)"""
+    k = int.from_bytes(bytes(t["k"]), "big")
+    return b58check(bytes(t["pfx"]) + bytes(t["head"]) + sec_of(ec_mul(k), True))
